@@ -1621,6 +1621,10 @@ def quantile(
         a = a.rechunk({ax: -1 if ax in axis else "auto" for ax in range(a.ndim)})
 
     q_arr = asarray_safe(q, like=a)
+    if type(q) in (int, float) and a.dtype.kind == "f":
+        # NumPy treats a Python scalar ``q`` as weakly typed: the result keeps
+        # the floating dtype of ``a``
+        q_arr = q_arr.astype(a.dtype)
     kwargs = {}
     if weights is not None:
         if not NUMPY_GE_200:
@@ -1749,9 +1753,13 @@ def _custom_nanquantile(
         )
 
     if is_scalar:
-        return quantiles[0].squeeze(axis=0)
+        result = quantiles[0].squeeze(axis=0)
     else:
-        return np.concatenate(quantiles, axis=0)
+        result = np.concatenate(quantiles, axis=0)
+    if a.dtype.kind == "f":
+        # same result dtype as np.nanquantile
+        result = result.astype(np.result_type(a.dtype, q.dtype), copy=False)
+    return result
 
 
 def _numbagg_nanquantile(a, q, **kwargs):
@@ -1808,6 +1816,10 @@ def nanquantile(
         a = a.rechunk({ax: -1 if ax in axis else "auto" for ax in range(a.ndim)})
 
     q_arr = asarray_safe(q, like=a)
+    if type(q) in (int, float) and a.dtype.kind == "f":
+        # NumPy treats a Python scalar ``q`` as weakly typed: the result keeps
+        # the floating dtype of ``a``
+        q_arr = q_arr.astype(a.dtype)
     if (
         HAS_NUMBAGG
         and (a.dtype.kind in "ui" or a.dtype == np.float64)
